@@ -499,6 +499,63 @@ def load_findings():
     return out
 
 
+def budget_map(func, cases, budget_s=5, procs=12, overrun=None):
+    """map func over cases in forked workers with a HARD per-case wall-clock budget: a worker arms
+    ITIMER_REAL with the default SIGALRM action before each case, so a case stuck inside C code (the sre
+    engine) kills the worker; the parent sees which case was in flight, records `overrun(case)` for it and
+    restarts a worker on the rest of the slice.  Results are returned in input order."""
+    import pickle, signal, tempfile
+    n = len(cases)
+    res = [None] * n
+    if not n:
+        return res
+    procs = max(1, min(procs, n))
+    step = (n + procs - 1) // procs
+    slices = [(a, min(n, a + step)) for a in range(0, n, step)]
+    tmpd = tempfile.mkdtemp(prefix='vbm', dir=str(BUILD))
+
+    def spawn(a, b):
+        path = os.path.join(tmpd, 'w%d_%d' % (a, b))
+        pid = os.fork()
+        if pid == 0:
+            try:
+                signal.signal(signal.SIGALRM, signal.SIG_DFL)
+                with open(path, 'ab') as f:
+                    for k in range(a, b):
+                        signal.setitimer(signal.ITIMER_REAL, budget_s)
+                        r = func(cases[k])
+                        signal.setitimer(signal.ITIMER_REAL, 0)
+                        pickle.dump((k, r), f)
+                        f.flush()
+            finally:
+                os._exit(0)
+        return pid, path, a, b
+
+    live = [spawn(a, b) for a, b in slices]
+    while live:
+        pid, path, a, b = live.pop(0)
+        os.waitpid(pid, 0)
+        done = a
+        try:
+            with open(path, 'rb') as f:
+                while True:
+                    try:
+                        k, r = pickle.load(f)
+                    except EOFError:
+                        break
+                    res[k] = r
+                    done = k + 1
+        except FileNotFoundError:
+            pass
+        if done < b:
+            res[done] = overrun(cases[done]) if overrun else ("EXC", "TimeBudget", "no result within %ss" % budget_s)
+            if done + 1 < b:
+                live.append(spawn(done + 1, b))
+    import shutil
+    shutil.rmtree(tmpd, ignore_errors=True)
+    return res
+
+
 # ---------------------------------------------------------------------- small helpers
 def cps(s):
     """str -> space-separated decimal code points (the wire format of the extracted models)"""
